@@ -26,7 +26,7 @@ FRESH = {'np.array', 'np.exp', 'np.stack', 'np.concatenate', 'np.take', 'np.fft.
          'np.int64', 'textwrap.indent', 'verify_scalar_quantity', 'super', 'np.shape', 'np.ndim', 'np.isrealobj', 'np.iscomplex',
          'np.bool_', 'np.round', 'np.rint', 'np.abs', 'np.conj', 'np.real_if_close'}
 ALIAS = {'np.asarray', 'np.asanyarray', 'np.broadcast_to', 'dask.array.asanyarray', 'da.asanyarray', 'tuple', 'list', 'dict', 'np.moveaxis',
-         'np.swapaxes', 'np.reshape', 'np.squeeze', 'np.atleast_1d', 'np.real', 'np.imag'}
+         'np.swapaxes', 'np.reshape', 'np.squeeze', 'np.atleast_1d', 'np.real', 'np.imag', 'np.flip', 'np.transpose'}
 FRESH_METHODS = {'to', 'conj', 'round', 'copy', 'compute', 'persist', 'rechunk', 'indices', 'items', 'keys', 'values', 'get', 'format',
                  'split', 'strip', 'lower', 'upper', 'sum', 'mean', 'isot', 'index', 'count', 'join', 'startswith', 'endswith', 'is_equivalent',
                  'isclose', 'decompose', 'time_delay', 'sample_delay', 'chirp_function', 'chirp_from_signal', 'contains', 'get_axis',
@@ -42,9 +42,11 @@ IMMUTABLE_ATTRS = {'start_time', 'stop_time', 'sample_rate', 'dt', 'center_freq'
                    'POSITIONAL_ONLY', 'empty', 'axes_labels', 'name', 'isot'}
 # NOT immutable: .value of a Quantity is a view of its array -> alias (default for attributes)
 # package-internal callees proved by their own obligation (no write); result may alias what they are given
-KNOWN_ALIAS = {'pb.time_shift', 'type(z).like', 'sig_type.like', 'sig_class.like', 'type(self).like', 'type(x).like', 'IntensitySignal.like',
+KNOWN_ALIAS = {'self._signal_type', 'self.read', 'super().read', 'pb.time_shift', 'type(z).like', 'sig_type.like', 'sig_class.like', 'type(self).like', 'type(x).like', 'IntensitySignal.like',
                'FullStokesSignal.like', 'cls', 'super().__getitem__', 'super().__init__', 'pb.fast_len', 'pb.snippet'}
-KNOWN_FRESH = {'pb.utils.prev_fast_len', 'pb.utils.next_fast_len', 'pb.utils.real_to_complex', 'DM.chirp_from_signal', 'DM.sample_delay',
+# reader internals: each is lowered and proved by its own obligation (returns data freshly read / new Time); fh.* is baseband's file handle
+KNOWN_FRESH = {'self._read_array', 'self._read_baseband', 'self._read_data', 'self.time_at', 'delayed_read', 'fh.read', 'fh.seek', 'self._get_fh',
+               'pb.utils.prev_fast_len', 'pb.utils.next_fast_len', 'pb.utils.real_to_complex', 'DM.chirp_from_signal', 'DM.sample_delay',
                'self.chirp_function', 'self.time_delay', 'self.get_axis', 'self.contains', 'self._time_slice', 'self._freq_slice'}
 
 TARGETS = [
@@ -59,6 +61,11 @@ TARGETS = [
     ('core.py', 'FullStokesSignal', ['__getitem__']),
     ('core.py', 'BasebandSignal', ['__init__', 'to_intensity']),
     ('core.py', 'DualPolarizationSignal', ['__init__', 'to_linear', 'to_circular', 'to_stokes', 'pol_type.setter']),
+    ('readers/_base.py', 'BaseReader', ['contains', 'offset_at', 'time_at', '_read_data', 'read', 'dask_read']),
+    ('readers/_baseband_readers.py', 'BasebandReader', ['_read_baseband', '_read_array', 'read']),
+    ('readers/_baseband_readers.py', 'GUPPIRawReader', ['_read_array']),
+    ('readers/_baseband_readers.py', 'DADAStokesReader', ['_read_array']),
+    ('transforms/transforms.py', None, ['signal_transform']),
 ]
 # deliberately not lowered: Signal.__array_ufunc__ (the sanctioned out= / in-place operator path of the property text)
 
